@@ -52,61 +52,65 @@ def validate(module: str, cfg_text: str, traces: Sequence[dict], *, timeout: int
     verdicts: List[Verdict] = [None] * len(traces)      # type: ignore
     stats = {"states": 0, "distinct": 0}
     for c0 in range(0, len(traces), chunk):
-        part = traces[c0:c0 + chunk]
-        r = _run(module, cfg_text, part, False, timeout, dfs)
-        stats["states"] += r.generated
-        stats["distinct"] += r.distinct
-        bad_inv = {}
-        if not r.ok:
-            # an invariant of the base spec failed on some trace: find which by bisection (re-run singly)
-            for i, t in enumerate(part):
-                r1 = _run(module, cfg_text, [t], False, timeout, dfs)
-                if not r1.ok:
-                    bad_inv[i] = r1.violated_name
-                    verdicts[c0 + i] = Verdict(False, invariant=r1.violated_name)
-                elif 1 in [int(x) for x in _acc(r1)]:
-                    verdicts[c0 + i] = Verdict(True)
-            accepted = set()
-        else:
-            accepted = {int(x) for x in _acc(r)}
-        for i, t in enumerate(part):
-            if verdicts[c0 + i] is not None:
-                continue
-            if (i + 1) in accepted:
-                verdicts[c0 + i] = Verdict(True)
-            else:
-                verdicts[c0 + i] = _diagnose(module, cfg_text, t, timeout, dfs)
+        part = list(traces[c0:c0 + chunk])
+        for i, v in enumerate(_validate_part(module, cfg_text, part, timeout, dfs, stats)):
+            verdicts[c0 + i] = v
     validate.last_stats = stats     # type: ignore
     return verdicts
 
 
-def _acc(r):
-    out = []
-    for p in r.tagged.get("ACCEPT", []):
-        out.append(str(p).strip())
+def _validate_part(module, cfg_text, part, timeout, dfs, stats) -> List[Verdict]:
+    r = _run(module, cfg_text, part, False, timeout, dfs)
+    stats["states"] += r.generated
+    stats["distinct"] += r.distinct
+    if not r.ok:
+        # an invariant of the base spec failed on some trace of this part: bisect
+        if len(part) == 1:
+            return [Verdict(False, invariant=r.violated_name, event=None)]
+        h = len(part) // 2
+        return (_validate_part(module, cfg_text, part[:h], timeout, dfs, stats)
+                + _validate_part(module, cfg_text, part[h:], timeout, dfs, stats))
+    accepted = {int(x) for x in _acc(r)}
+    out: List[Verdict] = [Verdict(True) if (i + 1) in accepted else None for i in range(len(part))]   # type: ignore
+    rej = [i for i, v in enumerate(out) if v is None]
+    if rej:
+        for i, v in zip(rej, _diagnose(module, cfg_text, [part[i] for i in rej], timeout, dfs)):
+            out[i] = v
     return out
 
 
-def _diagnose(module, cfg_text, t, timeout, dfs) -> Verdict:
-    r = _run(module, cfg_text, [t], True, timeout, dfs)
+def _acc(r):
+    return [str(p).strip() for p in r.tagged.get("ACCEPT", [])]
+
+
+def _diagnose(module, cfg_text, ts, timeout, dfs) -> List[Verdict]:
+    """One Diag=TRUE run over all rejected traces: deepest event reached + clauses failing there."""
+    r = _run(module, cfg_text, ts, True, timeout, dfs)
     if not r.ok:
-        return Verdict(False, invariant=r.violated_name)
-    if _acc(r):
-        return Verdict(True)       # flaky? treated as accepted only if the singleton run accepts
-    best = 0
-    names: Dict[int, List[str]] = {}
+        if len(ts) == 1:
+            return [Verdict(False, invariant=r.violated_name)]
+        h = len(ts) // 2
+        return _diagnose(module, cfg_text, ts[:h], timeout, dfs) + _diagnose(module, cfg_text, ts[h:], timeout, dfs)
+    acc = {int(x) for x in _acc(r)}
+    names: Dict[int, Dict[int, List[str]]] = {}
     for p in r.tagged.get("FAILCLAUSE", []):
-        # payload is the raw text  tid, l, "name"
         parts = [x.strip() for x in str(p).split(",", 2)]
-        l = int(parts[1])
-        nm = parts[2].strip('"')
-        names.setdefault(l, [])
-        if nm not in names[l]:
-            names[l].append(nm)
-        best = max(best, l)
-    ev = None
-    try:
-        ev = t["ev"][best - 1] if best >= 1 else None
-    except Exception:
-        pass
-    return Verdict(False, step=best, clauses=names.get(best, ["<no enabled action>"]), event=ev)
+        tid, l, nm = int(parts[0]), int(parts[1]), parts[2].strip().strip('"')
+        d = names.setdefault(tid, {})
+        d.setdefault(l, [])
+        if nm not in d[l]:
+            d[l].append(nm)
+    out = []
+    for i, t in enumerate(ts, start=1):
+        if i in acc:
+            out.append(Verdict(True))
+            continue
+        d = names.get(i, {})
+        best = max(d) if d else 0
+        ev = None
+        try:
+            ev = t["ev"][best - 1] if best >= 1 else None
+        except Exception:
+            pass
+        out.append(Verdict(False, step=best, clauses=d.get(best, ["<no enabled action>"]), event=ev))
+    return out
